@@ -126,8 +126,9 @@ CFGS = {
                       Kinds='{"mut", "del", "exp", "sys", "adv"}', Keys='{"user", "conn"}', OldEvents="TRUE"),
     "MCFaultQ": mc(FAULT, MaxFail="1"),
     "MCFault": mc(FAULT),
-    "MCModeQ": mc(FAULT, MaxFail="0", Finite="TRUE", AutoReset='"latest"', MaxEnds="2", EndCauses='{"ok"}', AllowClose="TRUE"),
-    "SimMode": simc(FAULT, 44, MaxFail="0", Finite="TRUE", AutoReset='"latest"', MaxEnds="2", EndCauses='{"ok"}', AllowClose="TRUE", MaxSaves="2"),
+    # (the bucket's history ends with a system event and a seqno-advanced in vBucket 2: its high seqno is not that of a collection)
+    "MCModeQ": mc(FAULT, InitLog="<- HistA", MaxSeq="3", Kinds='{"mut", "sys", "adv"}', MaxFail="0", Finite="TRUE", AutoReset='"latest"', MaxEnds="2", EndCauses='{"ok"}', AllowClose="TRUE"),
+    "SimMode": simc(FAULT, 44, InitLog="<- HistA", MaxSeq="3", Kinds='{"mut", "sys", "adv"}', MaxFail="0", Finite="TRUE", AutoReset='"latest"', MaxEnds="2", EndCauses='{"ok"}', AllowClose="TRUE", MaxSaves="2"),
     "MCFaultLatestQ": mc(FAULT, AutoReset='"latest"', MaxFail="1"),
     "MCFaultLatest": mc(FAULT, AutoReset='"latest"'),
     "SimFault": simc(FAULT, 48, MaxFail="3"),
